@@ -21,7 +21,7 @@ Extras == << <<Field("a", 0, Arr(Arr(U(8), 2), 3), 0), Field("b", 1, Arr(Arr(I(8
              <<Field("a", 0, Arr(Dyn(F32), 2), 1), Field("b", 1, Arr(Dyn(U(32)), 2), 1)>>,
              <<Field("a", 0, Dyn(Dyn(En("Ec"))), 1), Field("b", 1, Dyn(Dyn(U(3))), 1)>> >>
 NRoot == Len(T1) + Len(Picked) + Len(Extras)
-RName(i) == "R" \o ToString(i)
+RName(i) == (CASE i % 3 = 0 -> "R" [] i % 3 = 1 -> "Root" [] OTHER -> "MessageNumber") \o ToString(i)      \* names shorter and longer than a 4-character bus tag
 RootFields(i) == IF i <= Len(T1) THEN <<Field("a", 0, T1[i], 0)>>
                  ELSE IF i > Len(T1) + Len(Picked) THEN Extras[i - Len(T1) - Len(Picked)]
                  ELSE LET q == Pairs[Picked[i - Len(T1)]] IN <<Field("a", q[3], q[1], 1), Field("b", 1 - q[3], q[2], 0)>>
